@@ -4,6 +4,8 @@ import (
 	"bytes"
 	"fmt"
 	"io"
+	"os"
+	"path/filepath"
 	"regexp"
 	"strconv"
 	"strings"
@@ -40,8 +42,15 @@ var c18Tpls = map[string]string{
 	// executed with a nil context: a root-level set must stay inside the call
 	"s1.html": "{% set q = 'A' %}[{{ q }}{{ r }}]",
 	"s2.html": "{% set r = 'B' %}[{{ q }}{{ r }}]{% set q = 'C' %}",
+	// templates of more than 512 bytes; one imports blocks under an alias, the other plainly (and must not see the alias)
+	"u1.html": c18Pad + "{% extends base %}{% use ub with bb as cc %}{% block b %}[{{ block('cc') }}]{% endblock %}",
+	"u2.html": c18Pad + "{% extends base %}{% use ub %}{% block b %}[{{ block('cc') }}|{{ block('bb') }}]{% endblock %}",
+	"u3.html": c18Pad + "{% extends base %}{% use ub %}{% block b %}[{{ block('bb') }}]{% endblock %}",
+	"ub.html": c18Pad + "{% block bb %}UB{{ x }}{% endblock %}",
 	"f.js":    "{% if x matches pat %}g('{{ y }}'){% endif %}{% for i in l %}{{ i }};{% endfor %}{{ x starts with pat ? 1 : 0 }}",
 }
+
+var c18Pad = "{# " + strings.Repeat("padding so that the template is longer than any size threshold of a cache; ", 9) + "#}"
 
 // c18ScenarioCap bounds the exploration of one scenario (a lock-based repair makes blocked
 // hand-offs ~100x more expensive); a capped scenario makes the run exhaustive:false, exit 0.
@@ -60,6 +69,7 @@ var c18Ops = []c18Op{
 	{false, "a.html", false, ""}, {false, "b.js", false, ""}, {false, "c.txt", false, ""}, {false, "d.css", false, ""}, {false, c18Inline, false, ""}, {false, "e.html", false, ""}, {true, "b.js", false, ""}, {false, "f.js", false, ""}, {true, "a.html", false, ""},
 	{false, "g.xml", false, ""}, {false, "h.xml", false, ""}, {false, "m.js", false, ""},
 	{false, "n.html", false, ""}, {false, "s1.html", true, "[A]"}, {false, "s2.html", true, "[B]"},
+	{false, "u1.html", false, ""}, {false, "u2.html", false, ""}, {false, "u3.html", false, ""},
 }
 
 // c18Epoch makes template names and patterns unique per schedule / iteration ("a~17.html" is served like
@@ -67,7 +77,13 @@ var c18Ops = []c18Op{
 // interference that only exists while a cache is being filled is not hidden by earlier runs in the process.
 var c18Epoch atomic.Int64
 
+// c18PlainNames: the filesystem environment of the free-running pass serves fixed files (no per-schedule names)
+var c18PlainNames bool
+
 func c18Name(name string, k int64) string {
+	if c18PlainNames {
+		return name
+	}
 	if i := strings.Index(name, "."); i > 0 && !strings.Contains(name, "{") {
 		return name[:i] + "~" + strconv.FormatInt(k, 10) + name[i:]
 	}
@@ -86,7 +102,7 @@ func c18Ctx(k int64, v int) map[string]stick.Value {
 		first = pre
 	}
 	return map[string]stick.Value{"x": pre + "<'\"&;\\", "y": "</script>", "l": []stick.Value{"<", "'", pre},
-		"base": c18Name("a.html", k), "inc": c18Name("c.txt", k), "inc2": c18Name("k.txt", k), "pat": "^" + first + ".{0," + strconv.FormatInt(k%997+1, 10) + "}"}
+		"base": c18Name("a.html", k), "inc": c18Name("c.txt", k), "inc2": c18Name("k.txt", k), "ub": c18Name("ub.html", k), "pat": "^" + first + ".{0," + strconv.FormatInt(k%997+1, 10) + "}"}
 }
 
 // c18Loader: map lookup, falling back to the name as source (inline templates); a point before each load.
@@ -117,6 +133,21 @@ func (v *c18Visitor) Leave(parse.Node) { v.s.Point() }
 
 func c18Env(kind int, s *core.Sched) *stick.Env {
 	var env *stick.Env
+	if kind == 2 { // the library's own filesystem loader (free-running pass only: it has no scheduling points)
+		dir := filepath.Join(core.WorkDir, "c18fs")
+		if core.WorkDir == "" {
+			dir, _ = os.MkdirTemp("", "c18fs")
+		}
+		os.MkdirAll(dir, 0o755)
+		for n, src := range c18Tpls {
+			os.WriteFile(filepath.Join(dir, n), []byte(src), 0o644)
+		}
+		env = twig.New(stick.NewFilesystemLoader(dir))
+		env.Filters["up"] = func(ctx stick.Context, val stick.Value, args ...stick.Value) stick.Value {
+			return strings.ToUpper(stick.CoerceString(val))
+		}
+		return env
+	}
 	if kind == 0 {
 		env = twig.New(&c18Loader{s})
 		// a point before every Enter/Leave of the (shared) auto-escape visitor
@@ -285,6 +316,8 @@ func c18Sched(c core.Case) core.Result {
 // environment; under the race detector (halt_on_error) any report kills the worker and is a violation.
 func c18Race(c core.Case) core.Result {
 	kind, n, ops := c18Scenario(c)
+	c18PlainNames = kind == 2
+	defer func() { c18PlainNames = false }()
 	env := c18Env(kind, nil)
 	var wg sync.WaitGroup
 	iters := 12
@@ -411,7 +444,7 @@ func c18Levels(tier string) []core.Level {
 		nTriples = len(triples)
 	}
 	lv := []core.Level{
-		{Name: "twig env: pairs of 15 operations (incl. the same one twice), all schedules with <= 1 preemption", Gen: func(emit func(core.Case)) { pairs(0, 1, emit) }},
+		{Name: "twig env: pairs of 18 operations (incl. the same one twice), all schedules with <= 1 preemption", Gen: func(emit func(core.Case)) { pairs(0, 1, emit) }},
 		{Name: fmt.Sprintf("twig env: all pairs, all schedules with <= %d preemptions", bound), Gen: func(emit func(core.Case)) { pairs(0, bound, emit) }},
 		{Name: "core env: all pairs, all schedules with <= 1 preemption", Gen: func(emit func(core.Case)) { pairs(1, 1, emit) }},
 		{Name: fmt.Sprintf("twig env: %d three-thread scenarios, all schedules with <= 2 preemptions", nTriples), Gen: func(emit func(core.Case)) {
@@ -447,6 +480,12 @@ func c18Levels(tier string) []core.Level {
 				}
 				for _, t := range triples[:nTriples] {
 					emit(core.Case{Fam: "race", N: append([]int{kind, 64}, t...)})
+				}
+			}
+			// the filesystem loader: every operation executed by all 64 goroutines at once (the same files are loaded concurrently)
+			for i := 0; i < n; i++ {
+				if len(c18Ops[i].name) < 12 && !c18Ops[i].nilCtx {
+					emit(core.Case{Fam: "race", N: []int{2, 64, i, i}})
 				}
 			}
 		}},
